@@ -231,6 +231,36 @@ def run(tier, seed):
             for st in sts:
                 from ..rules import guarded_site as gs
                 gs(rep, rid, ctx, st, [("next_entry < tree_allocated", ("ult", ne, ta))])
+        # A-tree bounds every index by tree_len; the link to memory is that tree_len does not exceed the array handed over with it
+        rid = rep.rule("S-treelen", "support of A-tree: at every call of build_tree / init_tree the length argument is a constant not larger than the number of "
+                                    "elements of the array whose first element is passed", 8)
+        ncalls = 0
+        for f in plain.defined():
+            M = Matcher(f)
+            for c in f.insts():
+                if c.op != "call" or plain.callee_cname(c) not in ("build_tree", "init_tree") or len(c.ops) < 2:
+                    continue
+                ncalls += 1
+                g = f.defn(M.strip(c.ops[0], ("bitcast",)))
+                nelem = None
+                what = "not the first element of an array of known size"
+                # &obj->array[0]: a gep whose last steps are [.. field/array step][0] into [N x T]
+                if g is not None and not g.is_param and g.op == "getelementptr":
+                    base = f.defn(g.ops[0])
+                    bty = base.ty if base is not None else None
+                    steps = g.steps or []
+                    zero_idx = [s_ for s_ in steps if "idx" in s_ and is_const(s_["idx"]) and const_val(s_["idx"]) == 0]
+                    if bty and len(steps) == len(zero_idx):
+                        m = re.match(r"^\[(\d+) x ", bty)
+                        if m:
+                            nelem = int(m.group(1))
+                            what = "array of %d elements" % nelem
+                tl = c.ops[1]
+                ok = nelem is not None and is_const(tl) and const_val(tl) is not None and 0 <= const_val(tl) <= nelem
+                rep.check(rid, ok, "%s: %s(tree, %s) over an %s" % (f.cname, plain.callee_cname(c), const_val(tl) if is_const(tl) else "non-constant length", what), c.where(),
+                          None if ok else "the builder trusts tree_len: every index it writes is only known to be below that length, which here is not shown to fit the array",
+                          function=f.cname, obj="treelen-%s" % plain.callee_cname(c))
+        rep.check(rid, ncalls >= 8, "call sites of build_tree / init_tree found", "lib/", "%d" % ncalls, function="build_tree", obj="sites")
         rid = rep.rule("S-bits", "support of A-bits: BitStreamReader.bits is stored only by bit_stream_reader_init (0), peek_bits (+8 inside the byte loop) and read_bits (-n after a successful peek)", 3)
         bw = collections.Counter()
         for st in stores_to_field(plain, "BitStreamReader", "bits"):
